@@ -34,16 +34,27 @@ RULE = ("A: explicit-state BFS to closure over (FILTERS,_CACHE) of a fixed graph
         "get_filters(t,with_matches) for t in {S,I1,I2}; and, separately, of a nested graph (filterable point S3 implemented "
         "by FO=first_of([N1,N2]) with N1,N2 outside any SpecSet, parser P3F(S3); adds on S3,FO,P3F, refused adds on N1,N2, "
         "look-ups on S3,FO,N1), and of a graph with two filterable points SA<-IA, SB<-IB under one parser PAB(SA,SB) and a "
-        "combiner CAB(PAB) (adds on SA,SB,PAB,CAB,IA, look-ups on SA,SB,IA,IB); a case is one (state,event) transition executed on the real "
-        "functions; non-trivial when a look-up cache entry exists in the source state (the interleaving matters). "
+        "combiner CAB(PAB) (adds on SA,SB,PAB,CAB,IA, look-ups on SA,SB,IA,IB), and of six generated shapes (three "
+        "implementations; two-level first_of nesting; combiner over two single-spec parsers; combiner on a point and a parser, a "
+        "point without implementation; parser over three points one of them non-filterable; helper datasource on top of a "
+        "point, parser on an implementation) in which every node is an add target and every datasource a look-up target; small "
+        "closures of main/multi/nested additionally take, in every state, typed arguments (list, set, explicit default), "
+        "documented refusals (empty string, empty string inside a list / set, wrong type, max_match 0 / negative / None / bool / "
+        "str / float), an empty list / set and a dumps()->loads() round trip; a case is one (state,event) transition executed "
+        "on the real functions; non-trivial when a look-up cache entry exists in the source state (the interleaving matters). "
         "B: every content of <= L lines over {'',a,b,ab,xa,-a,a.*,[a],c} x every listed budgeted filter set x each "
         "code path (post-filter on load, cleaner allow-list, apply_filters; both of the first two also executed twice "
         "under one registration for <= 3 lines; host collection with real grep for <= 2/3 lines); a case is one "
-        "(path,content,filter set), started from freshly registered tables; non-trivial when the real output kept at "
+        "(path,content,filter descriptor), started from freshly registered tables; further descriptors on <= 3 lines: both "
+        "registration orders x registration places for overlapping pairs, triples in all 6 orders with mixed budgets, one "
+        "string registered twice with different budgets, a superstring filter, set-typed arguments under every iteration order "
+        "(forced hashes); stream() before and after load; two writes and two collections per host case; glob_file / "
+        "foreach_collect / foreach_execute content per file; shell/grep/format glue characters; filtering switched off; non-trivial when the real output kept at "
         "least one line and dropped at least one line")
 ASSUMPTIONS = [
-    "FILTERS and _CACHE (insights/core/filters.py) are the only state add_filter/get_filters read or write besides the "
-    "dependency graph, which is fixed during the search; ENABLED is forced on",
+    "the module-level dicts / lists / sets of insights/core/filters.py (found by type, not by name) are the only state "
+    "add_filter/get_filters read or write besides the dependency graph, which is fixed during the search; memoisation "
+    "hidden elsewhere (e.g. functools caches) would not be snapshotted; ENABLED is forced on except in the 'disabled' part",
     "canonical states ignore dict insertion order: every Part A observation (set / dict equality, raised or not) is "
     "order-insensitive; restored states are validated by re-executing each state's shortest history from empty tables",
     "budgets: repeated registrations of one string on one component combine by max (add_filter's max_matchs); across "
@@ -59,18 +70,26 @@ DEFAULT_BUDGET = 10000      # filters.MAX_MATCH; re-checked against the module w
 BOUNDS = {
     "quick": {"history": "closure for patterns {a,b} x budgets {1,default} and for pattern {a} x budgets {1,2,default}",
               "history_nested": "closure for patterns {a,b} x budgets {1,2,default} on the first_of graph",
+              "history_shapes": "6 generated shapes, closure for {a} x {1,default}",
+              "history_extras": "typed / refused arguments and dumps-loads round trip in every state of the {a} x {default} "
+                                "closures of main, multi, nested",
+              "extra_filter_descriptors": 140, "extra_descriptor_max_lines": 3, "multi_file_host_max_lines": 2,
               "history_multi": "two-points-under-one-parser graph: closure for {a,b} x {default} (adds on SA,SB,PAB,CAB,IA) "
                                "and for {a,b} x {1,default} (adds on SA,SB,PAB,CAB)",
               "content_max_lines": 4, "filter_sets": 46, "repeated_load_max_lines": 3, "host_max_lines": 2,
               "host_filter_sets": 16},
     "thorough": {"history": "closure for patterns {a,b} x budgets {1,2,default}",
                  "history_nested": "closure for patterns {a,b} x budgets {1,2,default} on the first_of graph",
+                 "history_shapes": "6 generated shapes, closures for {a} x {1,2,default} and {a,b} x {default}",
+                 "history_extras": "typed / refused arguments and dumps-loads round trip in every state of the {a} x "
+                                   "{default} closures of main, multi, nested",
+                 "extra_filter_descriptors": 234, "extra_descriptor_max_lines": 3, "multi_file_host_max_lines": 3,
                  "history_multi": "two-points-under-one-parser graph: closure for {a,b} x {1,2,default} (adds on "
                                   "SA,SB,PAB,CAB,IA)",
                  "content_max_lines": 5, "filter_sets": 153, "repeated_load_max_lines": 3, "host_max_lines": 3,
                  "host_filter_sets": 22},
 }
-CAP_S = {"quick": 200, "thorough": 2400}
+CAP_S = {"quick": 300, "thorough": 3000}
 
 CL_LOOKUP = "history:lookup-equals-union-of-registrations"
 CL_RAISE = "history:add-on-inapplicable-target-raises"
@@ -1022,6 +1041,7 @@ def explore_histories(unit, res):
     if unit.get("extras"):
         ev_add += extra_events(G["add"][0], G["add"][-1])
     only_extras = unit.get("count_only") == "extras"
+    max_states = unit.get("max_states", 600000)
     get_set = set(get_idx.values())
     _reset_tables(fx)
     k0 = (_canon(fx, g), RefModel().key())
@@ -1100,6 +1120,12 @@ def explore_histories(unit, res):
                     parent[k2] = (key, ev)
                     depth[k2] = d + 1
                     frontier.append(k2)
+            if len(parent) > max_states:
+                # does not close within the horizon: a verdict about coverage (the run is not exhaustive), neither a
+                # harness error nor - the statement does not bound the number of internal states - a violation
+                res.exhaustive = False
+                res.notes.append("history unit %s: more than %d states, search cut" % (unit["name"], max_states))
+                break
         res.states += len(parent)
         res.maxi("history_depth_to_closure", max(depth.values()))
         res.stat("history_states_%s" % unit["name"], len(parent))
@@ -1535,6 +1561,19 @@ def _judge_path(fx, path, lines, flts, cleaner):
     return stages[-1][2], None
 
 
+def _report(res, clause, case, exp, obs, feats):
+    """res.violation, but after the first few violations of one (clause, feature vector) only the counters are bumped
+    (the accumulator's own de-duplication is quadratic; an open finding can match tens of thousands of cases)."""
+    seen = res.__dict__.setdefault("_c07_seen", {})
+    k = (clause, repr(sorted(feats.items())))
+    seen[k] = seen.get(k, 0) + 1
+    if seen[k] <= 3:
+        res.violation(clause, case, exp, obs, feats)
+    else:
+        res.violation_total += 1
+        res.violation_counts[clause] = res.violation_counts.get(clause, 0) + 1
+
+
 def check_content(case):
     """case = {"part":"content","path":..,"lines":[..],"filters":[filter descriptor]}"""
     fx = _fx()
@@ -1552,6 +1591,9 @@ def _contents(max_lines):
     return enumx.strings(SIGMA, max_lines)
 
 
+SIGMA_X = ["a", "b", "ab", "-a", "[a]", "c"]     # quick: line alphabet of the extra filter descriptors
+
+
 def extra_filter_lists(tier):
     """Filter descriptors beyond plain sets: registration ORDER, every combination of registration places, one string
     registered twice with different budgets, three filters with mixed budgets, a filter that is a superstring of two
@@ -1559,12 +1601,13 @@ def extra_filter_lists(tier):
     out = []
     pairs = [("a", "-a"), ("a", "[a]"), ("a", "b"), ("a", "ab"), ("b", "ab")]
     for x, y in pairs:
+        full = tier != "quick" or (x, y) in (("a", "-a"), ("a", "ab"))
         for f, g in ((x, y), (y, x)):
             for v1 in VIAS:
-                for v2 in VIAS:
+                for v2 in (VIAS if full else VIAS[:1]):
                     out.append([[f, 1, v1], [g, 2, v2]])
             for bs in ((2, 1), (1, 1)):
-                for v1, v2 in (("point", "point"), ("impl", "point"), ("point", "impl")):
+                for v1, v2 in ((("point", "point"), ("impl", "point"), ("point", "impl")) if tier != "quick" else (("point", "point"),)):
                     out.append([[f, bs[0], v1], [g, bs[1], v2]])
     import itertools as it
     for tri, bud in ((("a", "b", "-a"), (1, 2, None)), (("a", "-a", "[a]"), (1, 2, None)), (("a", "b", "ab"), (2, 1, 1)),
@@ -1586,10 +1629,13 @@ def extra_filter_lists(tier):
 
 def explore_content(unit, tier, res):
     fx = _fx()
+    contents = None
     if "xset" in unit:
         flts = extra_filter_lists(tier)[unit["xset"]]
         L = 3
         paths_for = lambda n: ("archive-load", "cleaner")
+        if tier == "quick":
+            contents = enumx.strings(SIGMA_X, L)
     else:
         si = unit["set"]
         flts = with_via(filter_sets(tier)[si], si)
@@ -1602,7 +1648,7 @@ def explore_content(unit, tier, res):
     _mkroot(fx)
     try:
         snaps = {}
-        for t in enumx.shard(_contents(L), unit["shard"], unit["of"]):
+        for t in enumx.shard(contents if contents is not None else _contents(L), unit["shard"], unit["of"]):
             lines = list(t)
             for path in paths_for(len(lines)):
                 tr = PATH_TRIPLE[path]
@@ -1617,7 +1663,7 @@ def explore_content(unit, tier, res):
                         res.nontrivial += 1
                     res.outcomes.add("%s:%d:%d" % (path, len(lines), len(out)))
                 if v:
-                    res.violation(v[0], {"part": "content", "path": path, "lines": lines, "filters": flts}, v[1], v[2], v[3])
+                    _report(res, v[0], {"part": "content", "path": path, "lines": lines, "filters": flts}, v[1], v[2], v[3])
         res.samples.append({"part": "content", "path": "archive-load", "lines": ["xa", "c", "a"], "filters": flts})
     finally:
         _reset_tables(fx)
@@ -1647,7 +1693,7 @@ def _explore_host_cases(fx, res, paths, flts, contents):
                     res.nontrivial += 1
                 res.outcomes.add("%s:%d:%d" % (path, min(len(lines), 6), min(len(out), 6)))
             if v:
-                res.violation(v[0], {"part": "content", "path": path, "lines": lines, "filters": flts}, v[1], v[2], v[3])
+                _report(res, v[0], {"part": "content", "path": path, "lines": lines, "filters": flts}, v[1], v[2], v[3])
 
 
 def explore_host(unit, tier, res):
@@ -1707,7 +1753,7 @@ def explore_glue(res):
                             res.nontrivial += 1
                         res.outcomes.add("glue:%s:%d" % (path, min(len(out), 3)))
                     if v:
-                        res.violation(v[0], {"part": "content", "path": path, "lines": lines, "filters": flts}, v[1], v[2], v[3])
+                        _report(res, v[0], {"part": "content", "path": path, "lines": lines, "filters": flts}, v[1], v[2], v[3])
     finally:
         _reset_tables(fx)
         _rmroot(fx)
@@ -1878,7 +1924,7 @@ def units(tier, seed):
     for si in range(len(filter_sets(tier))):
         for j in range(k):
             us.append({"part": "content", "set": si, "shard": j, "of": k})
-    kx = 1 if tier == "quick" else 2
+    kx = 1
     for xi in range(len(extra_filter_lists(tier))):
         for j in range(kx):
             us.append({"part": "content", "xset": xi, "shard": j, "of": kx})
@@ -2021,13 +2067,19 @@ LEVEL_TEXT = ("Histories: the reachable (FILTERS,_CACHE) state space of a fixed 
               "points under one parser and a combiner, is explored to closure with the "
               "real functions as the transition relation; every look-up in every reachable state is compared with a cache-free reference (union "
               "semantics), and every state's shortest history is re-executed from empty tables; the same refused-then-registered "
-              "interleaving is also observed through real host collections (8 point x registration-target pairs). Contents: every content of "
+              "interleaving is also observed through real host collections (8 point x registration-target pairs); six further "
+              "generated graph shapes are closed with a small alphabet; typed / refused arguments and a dumps-loads round trip "
+              "are extra events of small closures; the state is every module-level container of the filters module, snapshotted "
+              "generically. Contents: every content of "
               "<= 4 (quick) / <= 5 (thorough) lines over a 9-symbol line alphabet (regex metacharacters, leading dash, "
               "overlapping and empty lines) x 46 / 153 budgeted filter sets through post-filter on load, the cleaner's "
               "allow-list and apply_filters, and <= 2 / <= 3 lines x 16 / 22 sets through real host collection "
-              "(grep -F, write() with a cleaner). 'No counterexample within the bound', nothing more.")
+              "(grep -F, stream(), write() twice, a second collection); registration order / place / duplicate / set-order "
+              "descriptors, multi-file factories, glue characters and the disabled gate on short contents. 'No counterexample within the bound', nothing more.")
 LEVEL_NOTE = ("Trusted: the fixture's declared graph (checked against the dr registries), the 40-line reference model "
               "(cross-checked against a second formulation transcribed from the statement on every discovered state), the "
               "declarative content judge (validated against the documented algorithm and five known-wrong outputs on every "
-              "run). Budgets across components: weaker reading (any contributing component's budget). Three graph shapes only (plain implementations; "
-              "first_of nesting one level deep; one parser + combiner over two filterable points); container factories and glob/first-file content are not pushed through the content paths.")
+              "run). Budgets across components: weaker reading (any contributing component's "
+              "budget; the smallest one for the content clauses). Nine graph shapes (three hand-written, six generated), not all "
+              "shapes; container factories, first_file / command_with_args content, runtime toggling of the ENABLED gate with a "
+              "warm cache and loads() of a document that differs from dumps() are not covered.")
